@@ -317,6 +317,13 @@ def apply_simple_op(world, op):
             e = P.mk_elem(world.prog, node["elem"], node["rand"])
             e["val"] = wrapv(v, e["w"], e["signed"]) if e["k"] == "s" else v
             node["elems"].append(e)
+    elif k == "list_set_obj":
+        # l[k] = <new object of the element class>
+        path, idx = tuple(op[1]), op[2]
+        node = P.get_node(world.shadow, path)
+        lst = world.real(path)
+        lst[idx] = world.ns[node["elem"][1]]()
+        node["elems"][idx] = P.mk_obj(world.prog, node["elem"][1], node["rand"])
     elif k == "list_clear":
         path = tuple(op[1])
         world.real(path).clear()
@@ -508,6 +515,13 @@ def list_facade_findings(world):
                     for i in range(n):
                         if lst[i] is not it[i]:
                             out.append("%s: l[%d] is not the object iteration yields" % (R.vname(path), i))
+                    # the object the user reaches at index i is the one the solver randomizes at index i
+                    fml = lst.get_model().field_l
+                    if len(lst.backing_arr) != len(fml):
+                        out.append("%s: holds %d objects but %d element models" % (R.vname(path), len(lst.backing_arr), len(fml)))
+                    for i in range(min(n, len(fml))):
+                        if lst[i].get_model() is not fml[i]:
+                            out.append("%s: l[%d] is not the object whose model sits at index %d of the list" % (R.vname(path), i, i))
             except Exception as e:
                 out.append("%s: list access raised %s: %s" % (R.vname(path), type(e).__name__, str(e)[:100]))
             for i, ch in enumerate(node["elems"]):
